@@ -1,5 +1,13 @@
 #!/bin/sh
-# Build the simulator from files on disk only (offline).
+# Build the simulator and prepare the Miri lane from files on disk only (offline).
 set -e
-cd "$(dirname "$0")/sim"
-CARGO_NET_OFFLINE=true cargo build --release --offline 2>&1 | tail -3
+ROOT="$(cd "$(dirname "$0")" && pwd)"
+export CARGO_NET_OFFLINE=true
+cd "$ROOT/sim"
+cargo build --release --offline 2>&1 | tail -3
+# Lane M: build Miri's sysroot and the workload once so that checks do not pay for it.
+# Failure here is not fatal: the checks report the Miri lane as unavailable in their evidence.
+cd "$ROOT/miri"
+(cargo +nightly miri setup --offline >/dev/null 2>&1 || cargo +nightly miri setup >/dev/null 2>&1) || echo "note: cargo +nightly miri setup failed; lane M will be reported as unavailable"
+MIRIFLAGS="-Zmiri-disable-stacked-borrows -Zmiri-ignore-leaks" cargo +nightly miri run --offline --release --quiet -- c15 1 >/dev/null 2>&1 || echo "note: the Miri lane did not run during setup"
+exit 0
